@@ -46,6 +46,8 @@ func (inv *IndexInvertedString) Search(options models.SearchStringOptions) (*roa
 	query := options.Value
 	if !inv.params.CaseSensitive {
 		query = strings.ToLower(query)
+		// The end of a range must be folded like its start and like the stored values
+		options.EndValue = strings.ToLower(options.EndValue)
 	}
 	return inv.inner.Search(query, options.EndValue, options.Operator)
 }
